@@ -17,12 +17,27 @@ from fractions import Fraction
 _TOK = re.compile(r"([A-Za-z])([0-9]*)")
 
 
+_SIG = {"utf-8-sig": "utf-8", "utf_8_sig": "utf-8", "utf8-sig": "utf-8"}
+
+
+def _file_bytes(path, encoding):
+    """bytes of a ruleset file and the codec for its fields: a codec that writes a signature (utf-8-sig) marks the FILE
+    once, at its start; the fields are then plain utf-8 (a U+FEFF anywhere else is content)"""
+    with open(path, "rb") as f:
+        data = f.read()
+    enc = _SIG.get(str(encoding).lower())
+    if enc:
+        if data.startswith(b"\xef\xbb\xbf"):
+            data = data[3:]
+        return data, enc
+    return data, encoding
+
+
 def _read_list_file(path, encoding):
     """value<TAB>prob lines; bytes are split on \\n only (the format is
     line-oriented on LF), a trailing CR is dropped, fields decoded afterwards."""
     out = []
-    with open(path, "rb") as f:
-        data = f.read()
+    data, encoding = _file_bytes(path, encoding)
     for raw in data.split(b"\n"):
         if raw.endswith(b"\r"):
             raw = raw[:-1]
@@ -117,13 +132,13 @@ class RefRuleset:
         self.vars["M"] = group_values(pairs)
         # base structures
         self.raw_base = []
-        with open(os.path.join(directory, folder, "grammar.txt"), "rb") as f:
-            for raw in f.read().split(b"\n"):
-                raw = raw.rstrip(b"\r")
-                if not raw:
-                    continue
-                a, b = raw.split(b"\t")[:2]
-                self.raw_base.append((a.decode("ascii"), float(b.decode("ascii").strip())))
+        gdata, _genc = _file_bytes(os.path.join(directory, folder, "grammar.txt"), self.encoding)
+        for raw in gdata.split(b"\n"):
+            raw = raw.rstrip(b"\r")
+            if not raw:
+                continue
+            a, b = raw.split(b"\t")[:2]
+            self.raw_base.append((a.decode("ascii"), float(b.decode("ascii").strip())))
         self.p_markov = 0.0
         for s, p in self.raw_base:
             if s == "M":
@@ -269,15 +284,14 @@ class RefOmen:
         return self
 
     def _read(self, path):
-        with open(path, "rb") as f:
-            data = f.read()
+        data, enc = _file_bytes(path, self.encoding)
         for raw in data.split(b"\n"):
             if raw.endswith(b"\r"):
                 raw = raw[:-1]
             if not raw:
                 continue
             a, b = raw.split(b"\t", 1)
-            yield int(a.decode("ascii")), b.decode(self.encoding)
+            yield int(a.decode("ascii")), b.decode(enc)
 
     def level(self, s):
         n = self.ngram
